@@ -255,7 +255,7 @@ pub fn add_sections(rep: &mut Report, prop: &str, thorough: bool, conformant_onl
                 }
             }
         }
-        let sec = Section::new("csr/sweep/dn-type x string-kind x value-shape", "every attribute type (6 standard; serialNumber, emailAddress, domainComponent as custom OIDs) x every string kind x 21 value shapes (incl. NUL, blank, line break, dot, U+FEFF at either edge), alone and after another attribute, as the subject of a request");
+        let sec = Section::new("csr/sweep/dn-type x string-kind x value-shape", "every attribute type (6 standard; serialNumber, emailAddress, domainComponent as custom OIDs) x every string kind x 27 value shapes (incl. NUL, blank, line break, dot, U+FEFF at either edge), alone and after another attribute, as the subject of a request");
         run::sweep_cases(&sec, &cases, &|c| format!("dn={:?}", c.0), &|c| {
             let mut st = CertState::default();
             st.dn = c.clone();
